@@ -1,4 +1,5 @@
 """C10 — $merge / $replace behave as if the referenced subtree were written inline."""
+import json
 import gen
 from histcheck import chain_case
 from props.evalcommon import standard_run, standard_replay, small_scope
@@ -177,13 +178,70 @@ def nontrivial(case, go, mo):
     return "$merge" in s or "$replace" in s
 
 
+def cross_file_cases(rng, n):
+    """a stream FILE (json / jsonl / yaml / yml / toml) whose second document reaches into the first through a cross-document
+    reference in every form - list, `$match`/`$path` map, and the STRING forms that are parsed on their own - with pattern values of
+    every integer width: the pattern and the document it selects come from different decoders"""
+    out = []
+    for _ in range(n):
+        N = rng.choice([5, 0, -7, 2**31 - 1, 2**31, 5000000000, -2**31 - 1, 2**53 + 1, 2**63 - 1, "x", "5", True, 1.5])
+        lit = json.dumps(N)
+        kind = rng.choice(["$merge", "$replace"])
+        form = rng.choice(["list", "map", "str-list", "directive-str", "str-inline"])
+        if form == "list":
+            ref = {kind: [{"id": N}, "spec"]}
+        elif form == "map":
+            ref = {kind: {"$match": {"id": N}, "$path": "spec"}}
+        elif form == "str-list":
+            ref = {kind: "[{id: %s}, spec]" % lit}
+        elif form == "directive-str":
+            ref = "%s:[{id: %s}, spec]" % (kind, lit)
+        else:
+            ref = {kind: "[{id: %s}, spec, l]" % lit}
+        doc0 = {"id": N, "kind": "T", "spec": {"replicas": rng.choice([3, 2**40]), "l": [1, 2**33]}}
+        decoy = {"id": rng.choice([6, 2**31 + 1, "y"]), "kind": "T", "spec": {"replicas": 0, "l": []}}
+        doc1 = {"kind": "H", "ref": ref}
+        with_decoy = rng.random() < 0.5
+        docs = [doc0, decoy, doc1] if with_decoy else [doc0, doc1]
+        ext = rng.choice(["json", "jsonl", "yaml", "yml", "toml"])
+        # the same reference in LIST form (the pattern then comes from the file's own decoder): must behave the same
+        tref = {kind: [{"id": N}, "spec"] + (["l"] if form == "str-inline" else [])}
+        tdocs = [doc0] + ([decoy] if with_decoy else []) + [{"kind": "H", "ref": tref}]
+        out.append({"layout": {"s." + ext: {"fmt": ext, "docs": docs}}, "opts": {"inputs": ["s." + ext], "format": "json"},
+                    "twin": {"layout": {"s." + ext: {"fmt": ext, "docs": tdocs}}, "opts": {"inputs": ["s." + ext], "format": "json"}},
+                    "meta": {"kind": f"cross:{form}:{ext}:{'wide' if isinstance(N, int) and not isinstance(N, bool) and abs(N) >= 2**31 else 'other'}"}})
+    return out
+
+
 def run(rep):
     standard_run(rep, PID, gen_case, nontrivial, "reference evaluation differs from the model of inline semantics",
                  3000, 150000,
                  "random tree + 1-3 injected references (map/list/string form, dotted/list paths, dangling, chains, "
                  "under $output) and 2-3 document streams with cross-document $match/$path and [pattern, path] forms; "
                  "non-trivial = contains a reference", extra_gens=[small_scope(PID)])
+    if len(rep.violations) < 5:
+        import random
+        import fscheck
+        from cli import pmap
+        cs = cross_file_cases(random.Random(rep.seed + 99), 200 if rep.tier == "quick" else 5000)
+        fscheck.file_chain_stage(rep, cs, "cross-document reference in a stream file")
+        # the string forms are parsed by a decoder of their own (unmodelled in the file-level model): judged against their list-form twin
+        a = pmap(fscheck.run_case, cs)
+        b = pmap(fscheck.run_case, [c["twin"] for c in cs])
+        for c, (oa, _), (ob, _) in zip(cs, a, b):
+            rep.count("cross-twin:" + c["meta"]["kind"].split(":")[1])
+            if ((oa["rc"] == 0) != (ob["rc"] == 0) or (oa["rc"] == 0 and oa["out"] != ob["out"])) and len(rep.violations) < 6:
+                rep.violation("a cross-document reference written as a string behaves differently from the same reference written as a list",
+                              {"case": {"crosstwin": {k: c[k] for k in ("layout", "opts", "twin")}}, "observed": oa, "twin_observed": ob})
 
 
 def replay(rep, payload):
+    if "crosstwin" in payload.get("case", {}):
+        import fscheck
+        c = payload["case"]["crosstwin"]
+        oa, _ = fscheck.run_case(c)
+        ob, _ = fscheck.run_case(c["twin"])
+        print("string form:", oa)
+        print("list form  :", ob)
+        return 1 if ((oa["rc"] == 0) != (ob["rc"] == 0) or (oa["rc"] == 0 and oa["out"] != ob["out"])) else 0
     return standard_replay(payload)
